@@ -2,6 +2,7 @@ package props
 
 import (
 	"context"
+	"runtime"
 	"encoding/json"
 	"fmt"
 	"net/http"
@@ -172,7 +173,20 @@ func (c *c20) isolation(tape *kernel.Tape, n int) {
 	steps(c.o, tape, n, func(i int, ch *kernel.Chooser) string {
 		c.step = i
 		var desc string
-		switch ch.Int(13) {
+		switch ch.Int(14) {
+		case 13: // the storage is down and answers with its one reused *oidc.Error value: the error redirect must not write into it
+			fired := false
+			w.Store.Inject = func(n int, method string, rid int) string {
+				if method == "CreateAuthRequest" && !fired {
+					fired = true
+					return world.FaultSentinel
+				}
+				return ""
+			}
+			_, r := startAuthz(w, b, flowOpts{client: "web", state: fmt.Sprintf("state-%d", i)})
+			w.Store.Inject = nil
+			desc = fmt.Sprintf("authorization request while the storage answers with its reused error value -> %d", statusOf(r))
+			c.o.Probe("sentinel-error-requests")
 		case 10: // issuer from the Forwarded header (default header list)
 			p, err := op.NewProvider(w.Conf, w.OP.Storage, op.IssuerFromForwardedOrHost(""), op.WithLogger(world.Discard))
 			desc = fmt.Sprintf("construct provider with issuer from Forwarded header (%v)", err)
@@ -331,6 +345,10 @@ func (c *c20) isolation(tape *kernel.Tape, n int) {
 		} else if !follows() {
 			c.viol("caller-object-mutated", "http.Client/behaviour", "after %q: the caller's client no longer follows redirects", desc)
 		}
+		if e := w.Store.Sentinel; e.State != "" || e.SessionState != "" || e.Description != "simstore: storage unavailable" || e.Parent != nil {
+			c.viol("caller-object-mutated", "oidc.Error/storage-error-value", "after %q: the error value owned by the storage was modified: state=%q session_state=%q description=%q", desc, e.State, e.SessionState, e.Description)
+			e.State, e.SessionState, e.Description, e.Parent = "", "", "simstore: storage unavailable", nil
+		}
 		if got := strings.Join(callerHeaders, ","); got != callerHeadersBefore {
 			c.viol("caller-object-mutated", "op.WithIssuerFromCustomHeaders/headers", "after %q: the caller's header list was rewritten: %s -> %s", desc, callerHeadersBefore, got)
 			callerHeaders = strings.Split(callerHeadersBefore, ",")
@@ -432,6 +450,34 @@ func raceMix(w *world.World, tape *kernel.Tape, mix string) {
 					rawGet(w, "/.well-known/openid-configuration")
 					rawGet(w, "/keys")
 				}
+			})
+		}
+	case "provider-storage-down":
+		// the storage is down and answers every CreateAuthRequest / SaveAuthCode with its one reused *oidc.Error value
+		// while several user agents are being answered with error redirects
+		var pending []string
+		for i := 0; i < 3; i++ {
+			if s, _ := startAuthz(w, b, flowOpts{client: "web", state: fmt.Sprintf("pre-%d", i)}); s.authReq != "" {
+				w.Store.CompleteLogin(s.authReq, "u1")
+				pending = append(pending, s.authReq)
+			}
+		}
+		w.Store.Inject = func(n int, method string, rid int) string {
+			if method == "CreateAuthRequest" || method == "SaveAuthCode" {
+				return world.FaultSentinel
+			}
+			return ""
+		}
+		n := ch.Range(3, 6)
+		for i := 0; i < n; i++ {
+			i := i
+			cb := ch.Bool(1, 3) && len(pending) > 0
+			add(func() {
+				if cb {
+					rawGet(w, "/authorize/callback?id="+pending[i%len(pending)])
+					return
+				}
+				rawGet(w, "/authorize?"+url.Values{"client_id": {"web"}, "redirect_uri": {"https://web.sim/callback"}, "response_type": {"code"}, "scope": {"openid"}, "state": {fmt.Sprintf("state-%d", i)}}.Encode())
 			})
 		}
 	case "rp":
@@ -575,6 +621,8 @@ func raceMix(w *world.World, tape *kernel.Tape, mix string) {
 			})
 		}
 	}
+	// the workers run with one processor (deterministic parts); the race mixes want goroutines that really overlap
+	defer runtime.GOMAXPROCS(runtime.GOMAXPROCS(4))
 	start := make(chan struct{})
 	var wg sync.WaitGroup
 	for _, f := range tasks {
@@ -591,7 +639,7 @@ func raceMix(w *world.World, tape *kernel.Tape, mix string) {
 	wg.Wait()
 }
 
-var raceMixes = []string{"provider", "rp", "rp-handlers", "rs-keyset", "construct", "construct-issuer"}
+var raceMixes = []string{"provider", "rp", "rp-handlers", "rs-keyset", "construct", "construct-issuer", "provider-storage-down"}
 
 func RunC20(t *testing.T, spec kernel.Spec) *kernel.Outcome {
 	out := kernel.NewOutcome(spec)
